@@ -3,7 +3,7 @@
    constants and SQL fragments in gen/GenSched.v (regenerated from the repository). *)
 From Coq Require Import List NArith Bool Arith.
 From SV Require Import model.Graph model.GraphInv.
-From SV Require Import lib.Bytes lib.SqlExpr gen.GenSched model.Sched proofs.SchedProofs proofs.SchedRevert.
+From SV Require Import lib.Bytes lib.SqlExpr gen.GenSched model.Sched proofs.SchedProofs proofs.SchedRevert proofs.SchedReconcile.
 From SV Require Import model.SchedGraph proofs.SchedGraphCpl proofs.SchedGraphMachine.
 Import ListNotations.
 Open Scope N_scope.
@@ -128,6 +128,33 @@ Proof.
                                       | apply (revert_optional_sound g Hfw HF) | exact HH].
 Qed.
 
+(* A director run with OTHER TARGETS than the previous one ("resumed with a different target set"):
+   Scheduler.initialize rebuilds the target tables and the threshold (set_targets), Workflow.reconcile_targets
+   -- TRANSLATED statement by statement: GenSched.reconcile_parts says which of its three flagging parts the
+   repository has -- flags stale TARGET values, the creators of exact targets and the producers of regular outputs
+   under directory targets.  Together they keep the flag invariant from ANY snapshot: every step whose target
+   elevation the new tables change is flagged, so the first metadata pass recomputes it.  Hypotheses (decidable,
+   evaluated on every real snapshot at a reconcile): attached files have distinct labels; an output is created by
+   its producer and is not in a static state. *)
+Theorem C11_target_change_keeps_flag_invariant :
+  forall g ts tds thr, WF g -> LabelsUnique g -> OutInv g -> FlagInv g ->
+    FlagInv (reconcile (set_targets g ts tds thr)).
+Proof. intros g ts tds thr. apply reconcile_sound. reflexivity. Qed.
+
+(* ... and each of the three parts is necessary: for any reconcile_targets that lacks one of them there is a
+   snapshot with every cached attribute correct and a change of targets after which a stale _implied_need is
+   not flagged (a former target keeps TARGET; a new exact or directory target is not elevated, so with the
+   threshold DEFAULT of a restricted build its producer is never dispatched). *)
+Theorem C11_reconcile_parts_necessary :
+  forall parts, parts <> (true, true, true) ->
+  exists g ts tds thr, WF g /\ LabelsUnique g /\ OutInv g /\ Acyclic g /\ AllCorrect g /\
+    ~ FlagInv_need (reconcile_with parts (set_targets g ts tds thr)).
+Proof. exact reconcile_parts_necessary. Qed.
+
+Theorem C11_reconcile_hypotheses_decidable :
+  forall g, fwf_b g = true -> labels_unique_b g = true -> outinv_b g = true -> LabelsUnique g /\ OutInv g.
+Proof. intros g A B C. split; [apply labels_unique_b_sound; assumption | apply outinv_b_sound; exact C]. Qed.
+
 (* Across whole histories (C10's combined machine: `reach idf s g` = any interleaving, from a state satisfying
    the invariant such as the fresh database, of transactions that neither create nor delete nodes, certified
    declaring / deleting transactions -- define_step and amend_step of steps created DURING the phase included --,
@@ -135,7 +162,8 @@ Qed.
    is needed above OPTIONAL and above the threshold, and a PENDING, attached, not deferred, safe, ready step with
    free resources is dispatched iff it is needed.  Partial in the sense of
    C10_cached_equals_spec_at_every_decision_partial (certificates for node-creating transactions); a change of
-   the targets between director runs (reconcile_targets) is not a step of the machine. *)
+   the targets between director runs is covered separately (C11_target_change_keeps_flag_invariant, on the
+   scheduling snapshot alone); it is not a step of the machine. *)
 Theorem C11_executed_iff_needed_at_every_decision_partial :
   forall idf, (forall a b, idf a = idf b -> a = b) ->
   forall s g, reach idf s g ->
